@@ -14,6 +14,7 @@ pub mod outputs;
 pub mod rrdp;
 pub mod rrdp2;
 pub mod crash;
+pub mod paths;
 pub mod rtrsrv;
 pub mod sched;
 pub mod server;
@@ -40,6 +41,7 @@ pub fn all() -> Vec<&'static Check> {
         &rrdp2::C25,
         &rrdp2::C24,
         &crash::C23,
+        &paths::C30,
         &worlds2::C39,
         &hist2::C40,
         &worlds2::C41,
